@@ -197,6 +197,10 @@ func (s *Schema) ValidateData(data []byte) error {
 		if err != nil {
 			return fmt.Errorf("failed to JSON remarshal data for validation: %w", err)
 		}
+	} else {
+		// JSON data gets the same content validation as YAML data. Data which
+		// can't be unmarshaled is reported by validate() below.
+		_ = json.Unmarshal(data, &any)
 	}
 
 	if err := s.validate(schema.NewBytesLoader(data)); err != nil {
@@ -208,10 +212,6 @@ func (s *Schema) ValidateData(data []byte) error {
 
 // ValidateFile validates the given JSON file against the schema.
 func (s *Schema) ValidateFile(path string) error {
-	if filepath.Ext(path) == ".json" {
-		return s.validate(schema.NewReferenceLoader("file://" + path))
-	}
-
 	data, err := os.ReadFile(path)
 	if err != nil {
 		return err
